@@ -1876,5 +1876,97 @@ def rule_R14(ctx):
                "the range, on %d (range, character, flag) cases" % n)
 
 
-RULES = {"M5": rule_M5, "L6": rule_L6, "P3": rule_P3, "X9": rule_X9, "U6": rule_U6, "T7": rule_T7,
+_INT_WIDTH = {"char": 1, "signed char": 1, "unsigned char": 1, "_Bool": 1, "int8_t": 1, "uint8_t": 1,
+              "short": 2, "unsigned short": 2, "int16_t": 2, "uint16_t": 2,
+              "int": 4, "unsigned int": 4, "unsigned": 4, "int32_t": 4, "uint32_t": 4,
+              "long": 8, "unsigned long": 8, "long long": 8, "unsigned long long": 8,
+              "size_t": 8, "ssize_t": 8, "int64_t": 8, "uint64_t": 8, "off_t": 8}
+
+
+def _int_width(ty):
+    t = " ".join(w for w in str(ty or "").split() if w not in ("const", "volatile", "register", "static"))
+    return _INT_WIDTH.get(t)
+
+
+def rule_U7(ctx):
+    """Entries of one undo step are recognised by comparing stored copies of the command counter
+    that lbuf_modified() advances.  Two commands are told apart only while every copy keeps all
+    the counter's bits: a copy held in a narrower integer makes commands 2^k apart share a step,
+    and one undo then reverts both.  The counter is found as the field lbuf_modified increments;
+    every field, local and return value of lbuf.c that (transitively) receives it is a carrier,
+    and every carrier must be at least as wide as the counter."""
+    ctx.begin("U7", floor=5, what="copies of the command counter are as wide as the counter")
+    prog = ctx.prog
+    fm = prog.func("lbuf_modified", file="lbuf.c")
+    counter = None
+    for n, lv, op, rhs in stores(fm.body):
+        if rhs is None and lv_field(lv) and not lv_field(lv)[2]:
+            counter = lv_field(lv)[:2]
+            cw = _int_width(lv.get("ty"))
+            cty = lv.get("ty")
+    if counter is None:
+        raise AnalysisBroken("lbuf_modified increments no field: the command counter was not found")
+    if cw is None:
+        raise AnalysisBroken("width of the counter's type %s is not known" % cty)
+    funcs = [f for f in prog.funcs.values() if f.file == "lbuf.c"]
+    fields, locs, rets = {counter}, set(), set()
+
+    def carries(e):
+        e = strip_casts(e)
+        while e is not None and e["k"] == "paren":
+            e = strip_casts(e["e"])
+        if e is None:
+            return False
+        if e["k"] == "cond":
+            return carries(e["t"]) or carries(e["f"])
+        if e["k"] == "member":
+            lf = lv_field(e)
+            return bool(lf) and not lf[2] and lf[:2] in fields
+        if e["k"] == "ref":
+            return e.get("did") in locs
+        if e["k"] == "call":
+            return e.get("fn") in rets
+        return False
+
+    seen = {}
+    changed = True
+    while changed:
+        changed = False
+        for f in funcs:
+            for n in f.walk():
+                if n["k"] == "return" and n.get("e") is not None and carries(n["e"]) and f.name not in rets:
+                    rets.add(f.name)
+                    seen[("ret", f.name)] = (f, n, f.d.get("ret"), "value returned by %s()" % f.name)
+                    changed = True
+            for n, lv, op, rhs in stores(f.body):
+                if rhs is None or op not in ("=", "init") or not carries(rhs):
+                    continue
+                if lv["k"] in ("ref", "var"):
+                    did = lv.get("did")
+                    if did is not None and did not in locs:
+                        locs.add(did)
+                        changed = True
+                    seen[("loc", f.name, did)] = (f, n, lv.get("ty"), "local %s of %s" % (lv.get("name"), f.name))
+                else:
+                    lf = lv_field(lv)
+                    if lf and not lf[2]:
+                        if lf[:2] not in fields:
+                            fields.add(lf[:2])
+                            changed = True
+                        seen[("fld",) + lf[:2]] = (f, n, lv.get("ty"), "field %s.%s" % lf[:2])
+    for kk, (f, n, ty, what) in sorted(seen.items(), key=lambda x: str(x[0])):
+        w = _int_width(ty)
+        if w is None:
+            ctx.inconclusive(f.name, "copy of the command counter keeps all its bits",
+                             "%s has type %s whose width is not known to the rule" % (what, ty), f.loc(n))
+        elif w < cw:
+            ctx.violation(f.name, "copy of the command counter keeps all its bits",
+                          "%s (%s, %d bytes) receives the command counter %s.%s (%s, %d bytes): commands 2^%d apart "
+                          "get the same step number, so one undo reverts both and the redo reinstates both"
+                          % (what, ty, w, counter[0], counter[1], cty, cw, 8 * w), f.loc(n))
+        else:
+            ctx.ok(f.name, "%s (%s) holds the counter without narrowing" % (what, ty), loc=f.loc(n))
+
+
+RULES = {"U7": rule_U7, "M5": rule_M5, "L6": rule_L6, "P3": rule_P3, "X9": rule_X9, "U6": rule_U6, "T7": rule_T7,
          "T8": rule_T8, "S6": rule_S6, "S7": rule_S7, "B15": rule_B15, "T9": rule_T9, "T10": rule_T10, "V9": rule_V9, "O4": rule_O4, "X10": rule_X10, "V7": rule_V7, "V8": rule_V8, "O3": rule_O3, "K6": rule_K6, "Q2": rule_Q2, "Q1": rule_Q1, "G9": rule_G9, "G8": rule_G8, "S8": rule_S8, "R14": rule_R14}
